@@ -503,7 +503,7 @@ class Interp:
                     if kind == 'no':
                         continue
                     for b in self.ev(e['body'], s2):
-                        if b.kind in ('val', 'cont'):
+                        if b.kind == 'val' or (b.kind == 'cont' and (b.target is None or b.target == e.get('id'))):
                             outs.append(Out('val', UNIT, b.st))
                         elif b.kind == 'brk' and (b.target is None or b.target == e.get('id')):
                             outs.append(Out('val', UNIT, b.st))
@@ -1133,6 +1133,20 @@ def builtin_summary(I, cal, args, node, st):
             else:
                 outs.append(o)
         return outs
+    if cal == 'core::iter::traits::iterator::Iterator::filter' and len(args) == 2 and args[1][0] in ('closure', 'fn'):
+        src = args[0]
+        el, st2 = st.fresh('elem')
+        el = ('elem', src, el[2])
+        outs = []
+        for o in I.apply(args[1], [el], node, st2):
+            if o.kind == 'val':
+                for truth, s3 in I.decide(o.val, o.st):
+                    outs.append(Out('val', ('many', src, el, el if truth else ('skip',)), s3))
+            else:
+                outs.append(o)
+        return outs
+    if cal == 'core::iter::traits::iterator::Iterator::enumerate' and len(args) == 1:
+        return [Out('val', ('enumerate', args[0]), st)]
     if cal == 'core::iter::traits::iterator::Iterator::collect' and args:
         return [Out('val', args[0], st)]
     if (cal.endswith('alloc::vec::Vec::<T, A>::pop') or cal.endswith('IntoIter<T, A> as core::iter::traits::iterator::Iterator>::next')
